@@ -460,6 +460,38 @@ def pool_map_sites(io_dir: Path):
     return [(m, f, a) for m, f, a, _ in sites]
 
 
+def voxel_cache_facts(repo: Path):
+    """navis/core/voxel.py, class VoxelNeuron: CORE_DATA, TEMP_ATTR, and for every method that assigns `<obj>._data` or
+    `<obj>._values` (property setters, threshold, strip, arithmetic …): (name, fields, calls `_clear_temp_attr()`?)"""
+    tree = ast.parse((Path(repo) / 'navis' / 'core' / 'voxel.py').read_text())
+    cls = next((n for n in tree.body if isinstance(n, ast.ClassDef) and n.name == 'VoxelNeuron'), None)
+    if cls is None:
+        raise ValueError('class VoxelNeuron not found')
+    lists = {}
+    for st in cls.body:
+        if isinstance(st, ast.Assign) and isinstance(st.targets[0], ast.Name) and st.targets[0].id in ('CORE_DATA', 'TEMP_ATTR'):
+            lists[st.targets[0].id] = [e.value for e in st.value.elts]
+    if set(lists) != {'CORE_DATA', 'TEMP_ATTR'}:
+        raise ValueError('VoxelNeuron: CORE_DATA / TEMP_ATTR not found')
+    assigns = []
+    for fn in cls.body:
+        if not isinstance(fn, ast.FunctionDef) or fn.name in ('__init__', '__setstate__'):
+            continue
+        fields = []
+        for n in ast.walk(fn):
+            tg = n.targets if isinstance(n, ast.Assign) else ([n.target] if isinstance(n, ast.AugAssign) else [])
+            for t in tg:
+                base = t.value if isinstance(t, ast.Subscript) else t      # x._data[mask] = 0 writes the field too
+                if isinstance(base, ast.Attribute) and base.attr in ('_data', '_values') and base.attr not in fields:
+                    fields.append(base.attr)
+        if not fields:
+            continue
+        clears = any(isinstance(n, ast.Call) and isinstance(n.func, ast.Attribute) and n.func.attr == '_clear_temp_attr' for n in ast.walk(fn))
+        is_setter = any(isinstance(dc, ast.Attribute) and dc.attr == 'setter' for dc in fn.decorator_list)
+        assigns.append((fn.name + ('.setter' if is_setter else ''), sorted(fields), clears))
+    return lists['CORE_DATA'], lists['TEMP_ATTR'], assigns
+
+
 def generate(repo: Path):
     io = Path(repo) / 'navis' / 'io'
     base, pre, nr = (ast.parse((io / f).read_text()) for f in ('base.py', 'precomputed_io.py', 'nrrd_io.py'))
@@ -477,6 +509,7 @@ def generate(repo: Path):
     js_checked = json_members_checked(js)
     tshape, ttrans, tdiag = info_transform_shape(pre)
     psites = pool_map_sites(io)
+    vcore, vtemp, vassign = voxel_cache_facts(repo)
 
     def cls(c):
         name, mod, b, fo, rb, rdf, ov = c
@@ -513,6 +546,11 @@ def infoTransformTransposed : Bool := {_b(ttrans)}
 def infoTransformDiagBlock : Bool := {_b(tdiag)}
 /-- `read_h5(parallel=…)`: pool method (`imap` keeps submission order). -/
 def h5ParallelMap : String := {_s(h5map)}
+/-- `navis/core/voxel.py`, VoxelNeuron: hashed fields, cached attributes, and every method assigning `_data` / `_values`. -/
+def voxCoreData : List String := {_lst(vcore)}
+def voxTempAttr : List String := {_lst(vtemp)}
+def voxAssigns : List VoxAssign := [{', '.join(f'⟨{_s(a)}, {_lst(fl)}, {_b(c)}⟩' for a, fl, c in vassign)}]
+def voxFacts : VoxFacts := voxFactsOf voxCoreData voxTempAttr voxAssigns
 /-- EVERY worker-pool call site of `navis/io/*.py`: (module, function, pool method). -/
 def poolMapSites : List (String × String × String) := [{', '.join(f'({_s(m)}, {_s(f)}, {_s(a)})' for m, f, a in psites)}]
 
